@@ -18,7 +18,7 @@ class C05(PureCheck):
             "thorough: all 59,049) with texts containing newline/tab/CR/wide/combining characters, plus multi-run values, plus every C0 (without ESC) / DEL / C1 (without CSI) control character first, inside and last in a run next to escape sequences; "
             "grammar: every string of <=3 (quick) / <=4 (thorough) items over {a, b, newline} u {ESC[p m : p in the 23 "
             "supported codes} u {ESC[m}, plus sampled combined-parameter sequences (1..3 parameters, and long ones of 8..200 parameters); parsed with "
-            "FmtStr.from_str and fmtstr alternately; result run lists validated by TLC against the stream terminal run over "
+            "FmtStr.from_str and fmtstr alternately (also right after a proper prefix of the same string was parsed, every cut position); result run lists validated by TLC against the stream terminal run over "
             "the *input* tokens. distinct_nontrivial = distinct inputs with >=1 SGR token and >=1 character")
     exhaustive = {"quick": False, "thorough": True}
 
@@ -83,6 +83,14 @@ class C05(PureCheck):
             for combo in itertools.product(ITEMS, repeat=n):
                 k += 1
                 yield {"op": "parse", "s": enc.enc_text("".join(combo)), "via": k % 2}
+        # a growing line: the same string parsed after each of its proper prefixes was parsed (every cut position)
+        grow = ["ab\x1b[31mX\x1b[39m", "a\x1b[1;44mb\x1b[0mc", "\x1b[4mxy\x1b[mz", "q\x1b[31m\x1b[1mr\x1b[0m", "\x1b[32mok\x1b[39m \x1b[44mtail\x1b[49m"]
+        for g in grow:
+            for cut in range(1, len(g)):
+                yield {"op": "parse", "s": enc.enc_text(g), "via": cut % 2, "pref": cut}
+        for k in range(300 if tier == "quick" else 3000):
+            runs = [[enc.enc_text(rng.choice(["a", "bc", "x\ny"])), [rng.choice([0, 2, 5]), rng.choice([0, 0, 4]), rng.choice([0, 2]), 0, 0, rng.choice([0, 2]), 0, 0]] for _ in range(rng.choice([1, 2]))]
+            yield {"op": "roundtrip", "runs": runs, "prefcut": rng.choice([0, 0, 1, 2, 3])}
         for n in (15, 16, 17, 18, 31, 32, 33, 64, 65, 200):       # every length around the usual parameter-count limits
             for tail in ([31], [1, 44], [0, 4]):
                 ps = [CODES[(j * 7 + n) % len(CODES)] for j in range(n - len(tail))] + tail
@@ -110,12 +118,25 @@ class C05(PureCheck):
             elif enc.WARM:
                 enc.warm(f, enc.WARM)
             s = str(f)
+            if inp.get("prefcut") is not None and "\x1b[" in s:
+                # the call before this one parsed the same terminal string cut short inside its first escape sequence
+                try:
+                    FmtStr.from_str(s[:s.index("\x1b[") + 2 + inp["prefcut"]])
+                except Exception:  # noqa
+                    pass
             ev["f"] = enc.enc_fmtstr(f)
             ev["toks"] = enc.lex(s)
             ev["res"] = fmtlib.enc_res(lambda: FmtStr.from_str(s))
             del ev["runs"]
         else:
             s = enc.dec_text(inp["s"])
+            if inp.get("pref") is not None:
+                # the call before this one parsed a proper prefix of this very string (output that arrives in pieces and
+                # is parsed again as it grows) - cut at any position, inside escape sequences too
+                try:
+                    (FmtStr.from_str if inp["via"] else fmtstr)(s[:inp["pref"]])
+                except Exception:  # noqa
+                    pass
             ev["toks"] = enc.lex(s)
             if inp["via"]:
                 ev["res"] = fmtlib.enc_res(lambda: FmtStr.from_str(s))
